@@ -21,12 +21,13 @@ import itertools
 
 import numpy as np
 
-from mc import ScopeUnit, Recorder, FAILED
+from mc import ScopeUnit, HistoryUnit, Recorder, FAILED
 from mc.state import reset_all
 from mc.linalg import dense
 
 from prysm import polynomials as P
 from prysm.polynomials import qpoly as Q
+from prysm.conf import config
 
 ID = 'C10'
 ASSUMPTIONS = [
@@ -380,6 +381,17 @@ def run_q2d_subsets(case, seed, R):
         if got is not FAILED:
             ok, why = same_pack(got, want)
             R.expect(ok, psig, f'terms {nms} coefs {cname}: {why}')
+        if cname == 'dense':
+            # argument forms of the (n, m) sequence and of the coefficients: tuple, int ndarray of pairs, and the one-shot iterables
+            # a user builds the pairs with (zip of two lists, generator, iterator) -- each may be traversed once only
+            ns_, ms_ = [nm[0] for nm in nms], [nm[1] for nm in nms]
+            for fname, mk, mkc in (('tuple', lambda: tuple(nms), lambda: tuple(c)), ('ndarray', lambda: np.array(nms, dtype=int).reshape(-1, 2), lambda: np.array(c)),
+                                   ('zip', lambda: zip(ns_, ms_), lambda: list(c)), ('generator', lambda: ((a, b) for a, b in nms), lambda: list(c)),
+                                   ('iter', lambda: iter(list(nms)), lambda: iter(list(c)))):
+                g2 = R.call(Q.Q2d_nm_c_to_a_b, mk(), mkc(), sig=psig + f':form-{fname}:exception')
+                if g2 is not FAILED:
+                    ok, why = same_pack(g2, want)
+                    R.expect(ok, psig + f':form-{fname}', f'terms {nms} given as {fname}: {why}')
         # the evaluator is driven with the documented packing (identical to the packer's output whenever the packer is right)
         cm0, ams, bms = want
         ref, cond = q2d_reference(nms, c, u, t)
@@ -827,6 +839,102 @@ def run_lstsq_values(case, seed, R):
 
 # ---------------------------------------------------------------------------------------------
 
+# ---------------------------------------------------------------------------------------------
+# call / precision history of the fast sums (explicit-state BFS over module-level state: config.precision and whatever the
+# routines memoise between calls)
+
+H_X = np.linspace(-1, 1, 7)
+H_U = np.linspace(0.05, 0.95, 7)
+H_T = np.linspace(-3, 3, 7)
+H_NMS = [(0, 0), (2, 0), (1, 1), (0, -1), (1, -2)]
+H_C = [1.0, -2.0, 0.5, 3.0]
+H_C2D = [0.7, -1.1, 0.4, 2.0, -0.3]
+H_REFS = {}
+
+
+def _h_modes():
+    k, i, j = np.meshgrid(np.arange(3), np.arange(3), np.arange(4), indexing='ij')
+    return ((k + 1) * 1.5 + 0.25 * i - 0.125 * j).astype(float)
+
+
+def h_calls():
+    cm0, ams, bms = ref_pack(H_NMS, H_C2D)
+    return {
+        'jsc(0,0)': (lambda: P.jacobi_sum_clenshaw(list(H_C), 0.0, 0.0, H_X.copy()), lambda: explicit_sum(H_C, [P.jacobi(n, 0.0, 0.0, H_X) for n in range(4)])),
+        'jsc(.5,-.5)': (lambda: P.jacobi_sum_clenshaw(list(H_C), 0.5, -0.5, H_X.copy()), lambda: explicit_sum(H_C, [P.jacobi(n, 0.5, -0.5, H_X) for n in range(4)])),
+        'jsc(0,4)': (lambda: P.jacobi_sum_clenshaw(list(H_C), 0.0, 4.0, H_X.copy()), lambda: explicit_sum(H_C, [P.jacobi(n, 0.0, 4.0, H_X) for n in range(4)])),
+        'jsc3(0,0)': (lambda: P.jacobi_sum_clenshaw(list(H_C[:3]), 0.0, 0.0, H_X.copy()), lambda: explicit_sum(H_C[:3], [P.jacobi(n, 0.0, 0.0, H_X) for n in range(3)])),
+        'qbfs': (lambda: Q.clenshaw_qbfs(list(H_C), H_U * H_U), lambda: explicit_sum(H_C, [Q.Qbfs(n, H_U) for n in range(4)])),
+        'zqbfs': (lambda: Q.compute_z_zprime_Qbfs(list(H_C), H_U.copy(), H_U * H_U)[0], lambda: explicit_sum(H_C, [Q.Qbfs(n, H_U) for n in range(4)])),
+        'zqcon': (lambda: Q.compute_z_zprime_Qcon(list(H_C), H_U.copy(), H_U * H_U)[0], lambda: explicit_sum(H_C, [Q.Qcon(n, H_U) for n in range(4)])),
+        'zq2d': (lambda: Q.compute_z_zprime_Q2d(list(cm0), [list(a) for a in ams], [list(b) for b in bms], H_U.copy(), H_T.copy())[0],
+                 lambda: q2d_reference(H_NMS, H_C2D, H_U, H_T)),
+        'modes': (lambda: P.sum_of_2d_modes(_h_modes(), np.array([1.0, -0.5, 2.0])), lambda: explicit_sum([1.0, -0.5, 2.0], _h_modes())),
+    }
+
+
+H_EVENTS = ['clear'] + [f'{c}@{p}' for c in h_calls() for p in (64, 32)]
+
+
+class HState:
+    __slots__ = ('last', 'dead', 'hist')
+
+    def __init__(self):
+        self.last, self.dead, self.hist = None, False, []
+
+
+def h_fresh(init, seed):
+    if not H_REFS:
+        # references: explicit sums of the one-order value functions, computed under precision 64; the caches they warmed are dropped again
+        reset_all()
+        for name, (_, ref) in h_calls().items():
+            H_REFS[name] = ref()
+        reset_all()
+    return HState()
+
+
+def h_events(init, history, st):
+    return [] if st.dead else [e for e in H_EVENTS if not (history and history[-1] == e == 'clear')]
+
+
+def h_apply(st, ev, R):
+    st.last = None
+    st.hist.append(ev)
+    if ev == 'clear':
+        from mc.state import reset_poly_caches
+        reset_poly_caches()
+    else:
+        name, prec = ev.rsplit('@', 1)
+        config.precision = int(prec)          # the precision switch is part of the event: "call X under precision p"
+        out = R.call(h_calls()[name][0], sig=f'history:{name}:exception', hygiene=False)
+        st.last = (name, out, int(prec))
+        if out is FAILED:
+            st.dead = True
+    return st
+
+
+def h_check(st, init, history, R):
+    if st.last is None:
+        R.outcome('state-event')
+        return
+    ev, out, prec = st.last
+    if out is FAILED:
+        R.outcome('exception')
+        return
+    ref, cond = H_REFS[ev]
+    eps = float(np.finfo(np.float32 if prec == 32 else np.float64).eps)
+    before = [h for h in history[:-1]]
+    R.expect_close(out, ref, KTOL * eps * cond, f'history:{ev.split("(")[0].rstrip("3")}:depends-on-prior-calls:prec{prec}',
+                   f'{ev} under config.precision={prec} after the history {before} vs the explicit sum (tolerance {KTOL:g} eps({prec}) cond)')
+    R.nontrivial(len(history) >= 2)
+    R.outcome(f'call:prec{prec}')
+
+
+def h_canon(st):
+    # no merging: the state is the history (the space is tiny) -- a memo anywhere in the library may depend on every earlier call
+    return tuple(st.hist)
+
+
 def plan(tier, seed):
     quick = tier == 'quick'
     LMAX = 8
@@ -916,7 +1024,14 @@ def plan(tier, seed):
                     for dform in ('real', 'complex'):
                         lsv_cases.append({'modes': mk, 'coefs': ck, 'data': dform, 'k': k, 'shape': shape, 'N': N, 'Nlabel': nlabel})
 
+    hdepth = 3 if tier == 'quick' else 4
+    hist_unit = HistoryUnit('call_history', [{}], h_fresh, h_events, h_apply, h_check, h_canon, hdepth,
+                            f'BFS to depth {hdepth} over every sequence of the events {H_EVENTS} (clear empties every lru cache of the polynomial modules; X@p sets config.precision = p and calls the fast '
+                            'sum X on fixed 7-point float64 inputs with fresh argument objects: jacobi_sum_clenshaw at three (alpha, beta) and two lengths, clenshaw_qbfs, compute_z_zprime_Qbfs / Qcon / Q2d, sum_of_2d_modes); '
+                            'no state merging (the state is the history); invariant after every call: the result equals the explicit sum to 1e3 eps(configured precision) cond, whatever ran before',
+                            reset=reset_all)
     return [
+        hist_unit,
         ScopeUnit('sum_of_2d_modes', sm_cases, run_sum_modes,
                   f'every mode count K in 1..{LMAX} x shapes {sm_shapes} x modes given as 3-D array / list of 2-D arrays x float64/float32; '
                   f'x memory layout of the modes {LAYOUTS} (C / Fortran copy / transposed view of transposed data / strided slice; non-C layouts for float64 non-square 2-D shapes); '
